@@ -434,6 +434,47 @@ func facetRoute(args []string) error {
 				cases = append(cases, c)
 			}
 		}
+		// sessions: several requests on ONE API value with one configuration (stateful slips
+		// such as in-place mutation of API fields only show on the 2nd, 3rd ... request)
+		for sIdx := 0; sIdx < 4; sIdx++ {
+			mws := 2 + crng.Intn(3)
+			nf, sp, co := crng.Bool(), crng.Bool(), crng.Bool()
+			auth := map[string][]string{}
+			for field := range schemeOf {
+				auth[field] = []string{"good"}
+			}
+			for k := 0; k < 5; k++ {
+				t := Pick(crng, rs.Templates)
+				segs := strings.Split(t, "/")[1:]
+				for i, sg := range segs {
+					if strings.HasPrefix(sg, "{") {
+						segs[i] = Pick(crng, []string{"a", "7", "true", "z"})
+					}
+				}
+				c := rt.Case{Op: "serve", Pkg: r.Name, ID: fmt.Sprintf("%s#s%d.%d", r.Name, sIdx, k), Path: rs.Base + "/" + strings.Join(segs, "/"),
+					Method: Pick(crng, []string{"GET", "POST", "PUT", "DELETE", "OPTIONS", "PATCH", "HEAD"}), Mws: mws, NF: nf, Spec: sp, Cors: co, Reuse: k > 0}
+				if rs.HasSec {
+					c.Auth = auth
+					q := url.Values{}
+					for _, sd := range rs.Schemes {
+						switch sd.Kind {
+						case "bearer":
+							c.Headers = append(c.Headers, [2]string{"Authorization", "Bearer good"})
+						case "header":
+							c.Headers = append(c.Headers, [2]string{sd.Name, "good"})
+						case "query":
+							q.Add(sd.Name, "good")
+						}
+					}
+					c.Query = q.Encode()
+				}
+				parse := !rs.HasSec
+				c.NoParse = !parse
+				c.Alias = schemeOf
+				fmt.Fprintln(cw, leanServeLine(&c, parse, schemeOf))
+				cases = append(cases, c)
+			}
+		}
 	}
 	cw.Flush()
 	obs, rerr := runBatch(bin, cases)
